@@ -16,6 +16,8 @@
 (*               descriptor of its own while the body runs                 *)
 (*   rec.nc      noclobber option on                                       *)
 (*   rec.lim     RLIMIT_NOFILE in force (AbsNoLimit = not lowered)         *)
+(*   rec.flt     a system call of the shell was made to fail while the     *)
+(*               command was being applied (fault injection)               *)
 (*   rec.bst     exit status the command body itself ends with             *)
 (*   rec.list    the redirections, left to right: [t, op, path, n, data]   *)
 (*               op in in(<) out(>) clob(>|) app(>>) rw(<>) dupin(<&n)     *)
@@ -244,18 +246,24 @@ Clauses(rec, S) ==
      \cup (IF ~rec.stchk \/ rec.exited = (failed /\ rec.kind \in ExitKinds) THEN {} ELSE {"exit"})
      \cup (IF ~rec.fchk \/ filesOK THEN {} ELSE {"files"})
 
-(* Allowed outcomes: the operators' own meaning; under a lowered limit     *)
-(* also a failure of descriptor allocation in any redirection, or - for a  *)
+(* Allowed outcomes: the operators' own meaning; under a lowered limit, or *)
+(* when a system call was made to fail (open, the temporary file of a      *)
+(* here-document, writing or rewinding it, F_DUPFD, pipe: any step may     *)
+(* fail after the previous ones succeeded),                                *)
+(* also a failure                              in any redirection, or - for a  *)
 (* command that needs a descriptor of the shell's own - in the command     *)
 (* itself after its redirections were applied (stop = Len(list) + 1: the   *)
 (* command does not run, fails like any failing command of its kind, and   *)
 (* the table must still be what it was before).  The                       *)
 (* verdict is that of the outcome the observation is closest to (fewest    *)
 (* violated clauses), with the index of the redirection failing in it.     *)
+\* the system may refuse a call the shell makes for this command
+Loose(rec) == rec.lim # AbsNoLimit \/ rec.flt
+
 Outcomes(rec) ==
   {<<0, FALSE>>} \cup
-  (IF rec.lim # AbsNoLimit THEN (1 .. Len(rec.list)) \X BOOLEAN ELSE {}) \cup
-  (IF rec.lim # AbsNoLimit /\ rec.kind \in NeedsFd THEN {<<Len(rec.list) + 1, FALSE>>} ELSE {})
+  (IF Loose(rec) THEN (1 .. Len(rec.list)) \X BOOLEAN ELSE {}) \cup
+  (IF Loose(rec) /\ rec.kind \in NeedsFd THEN {<<Len(rec.list) + 1, FALSE>>} ELSE {})
 
 \* the state after the list, for outcome o
 AbsOutcome(rec, o) ==
@@ -265,7 +273,7 @@ AbsOutcome(rec, o) ==
 VerdictFull(rec) ==
   LET sem == AbsList(rec, 0, FALSE)
       cs  == Clauses(rec, sem)
-  IN IF cs = {} \/ rec.lim = AbsNoLimit THEN [clauses |-> cs, fail |-> sem.fail]
+  IN IF cs = {} \/ ~Loose(rec) THEN [clauses |-> cs, fail |-> sem.fail]
      ELSE LET cand == {[clauses |-> Clauses(rec, AbsOutcome(rec, o)),
                         fail |-> AbsOutcome(rec, o).fail] : o \in Outcomes(rec)}
               semV == [clauses |-> cs, fail |-> sem.fail]
